@@ -237,9 +237,104 @@ def run_threads_case(c):
                 live=sorted(blk(ix, x) for l in lives for x in l))
 
 
+def run_prefix(heap, ops):
+    """sequential prefix of a conc / fork case: ['m', n] | ['f', k] | ['d', k]; returns the blocks by malloc number"""
+    got = []
+    for op in ops:
+        if op[0] == 'm':
+            got.append(heap.malloc(op[1]))
+        elif op[0] == 'f':
+            heap.free(got[op[1]])
+        elif op[0] == 'd':
+            deferred_free(heap, got[op[1]])
+        else:
+            raise SystemExit('bad prefix op %r' % (op,))
+    return got
+
+
+def run_conc_case(c):
+    """real threads under a forced schedule (harness/heap_conc.py)"""
+    import heap_conc
+    bh.Arena = StubArena
+    bh.mmap = types.SimpleNamespace(PAGESIZE=c['pg'])
+    signal.setitimer(signal.ITIMER_REAL, 30.0)
+    try:
+        return heap_conc.run_conc(bh.Heap, c, snapshot, arena_index, blk, lambda heap: run_prefix(heap, c['ops']))
+    except Stuck:
+        return dict(obs=[], snap=None, stuck=True, events=[], trace=[], log=[], results=[], got=[])
+    finally:
+        signal.setitimer(signal.ITIMER_REAL, 0)
+
+
+def run_fork_case(c):
+    """the prefix runs here; a forked child then uses the heap object it inherited (['m', n] | ['f', k] own block |
+    ['p', k] a block of the parent) and reports; the parent's state is reported afterwards"""
+    import os
+    bh.Arena = StubArena
+    bh.mmap = types.SimpleNamespace(PAGESIZE=c['pg'])
+    heap = bh.Heap(c['size'])
+    pgot = run_prefix(heap, c['ops'])
+    parent_arenas = list(heap._arenas)
+    r, w = os.pipe()
+    pid = os.fork()
+    if pid == 0:
+        code = 0
+        try:
+            os.close(r)
+            obs, got = [], []
+            for op in c['fork']:
+                try:
+                    signal.setitimer(signal.ITIMER_REAL, 3.0)
+                    res = None
+                    if op[0] == 'm':
+                        res = heap.malloc(op[1])
+                        got.append(res)
+                    elif op[0] == 'f':
+                        heap.free(got[op[1]])
+                    else:
+                        heap.free(pgot[op[1]])
+                    signal.setitimer(signal.ITIMER_REAL, 0)
+                except (KeyError, IndexError, ValueError, AssertionError, TypeError, AttributeError, Stuck) as exc:
+                    signal.setitimer(signal.ITIMER_REAL, 0)
+                    obs.append([True, [-1, -1, -1], -1, -1, type(exc).__name__])
+                    break
+                ix = arena_index(heap)
+                if res is not None and id(res[0]) not in ix:
+                    obs.append([False, [-2, res[1], res[2]], len(heap._arenas), n_free(heap)])
+                else:
+                    obs.append([False, blk(ix, res) if res is not None else [-1, -1, -1],
+                                len(heap._arenas), n_free(heap)])
+            inherited = sum(1 for a in heap._arenas if any(a is p for p in parent_arenas))
+            try:
+                snap = snapshot(heap)
+            except KeyError:
+                snap = None
+            out = dict(obs=obs, snap=snap, arenas_shared_with_parent=inherited)
+            os.write(w, json.dumps(out).encode())
+        except BaseException:
+            code = 3
+        finally:
+            os._exit(code)
+    os.close(w)
+    data = b''
+    while True:
+        chunk = os.read(r, 65536)
+        if not chunk:
+            break
+        data += chunk
+    os.close(r)
+    os.waitpid(pid, 0)
+    child = json.loads(data.decode()) if data else dict(obs=[], snap=None, died=True)
+    return dict(obs=[], snap=snapshot(heap), child=child, dsize=bh.Heap.__init__.__defaults__[0])
+
+
 def run_case(c):
     if 'threads' in c:
         return run_threads_case(c)
+    if 'conc' in c:
+        return run_conc_case(c)
+    if 'fork' in c:
+        return run_fork_case(c)
     if STUCK[0] >= 2:      # the heap lock deadlocks: do not wait for every remaining case
         return dict(obs=[], snap=None, skipped=True)
     real = bool(c.get('real'))
